@@ -1,1 +1,9 @@
-/- C04 — theorems (placeholder until the property is built). -/
+/- C04 — theorems (work in progress). -/
+import PandoraModel.Model.Criteria
+import PandoraModel.Model.FlagSteps
+import PandoraModel.Generated.Constants
+import PandoraModel.Generated.FlagOps
+
+namespace Pandora.C04
+theorem wip : Pandora.Criteria.preInvalidBits = 195 := by decide
+end Pandora.C04
